@@ -867,3 +867,162 @@ def write_case(prog, workdir, name="p"):
     open(os.path.join(workdir, name + ".gdl"), "w").write(text)
     json.dump(prog.ir(), open(os.path.join(workdir, name + ".ir.json"), "w"))
     return text
+
+
+# ---------------------------------------------------------------------------
+# family 'expr' (C01): attribute values and item constraints built from an expression grammar
+# ---------------------------------------------------------------------------
+
+INTERESTING = [0, 1, 2, 3, 5, 7, 100, 127, 128, 129, 200, 255, 256, 1000, 32767, 32768, 32769, 40000, 65535, 65536, 70000, 1000000,
+               2147483647, -1, -2, -5, -127, -128, -129, -200, -32768, -32769, -65536, -2147483647]
+
+
+def gen_int_expr(rng, ctx, depth):
+    """-> (text, ir). ctx: dict(refs=[1-based input item numbers that may be referenced], own=bool, nuser, ngattr)."""
+    r = rng.random()
+    if depth <= 0 or r < 0.35:
+        k = rng.random()
+        if k < 0.4:
+            n = rng.choice(INTERESTING) if rng.random() < 0.7 else rng.randint(-300, 300)
+            return (str(n) if n >= 0 else "(%d)" % n), {"k": "lit", "v": n}
+        slot = None
+        cands = list(ctx["refs"])
+        if cands and (not ctx["own"] or rng.random() < 0.6):
+            slot = rng.choice(cands)
+        elif not ctx["own"]:
+            n = rng.choice(INTERESTING)
+            return (str(n) if n >= 0 else "(%d)" % n), {"k": "lit", "v": n}
+        pre = "@%d." % slot if slot else ""
+        if k < 0.75 or ctx["ngattr"] == 0:
+            i = rng.randrange(ctx["nuser"])
+            return pre + "user%d" % (i + 1), {"k": "user", "slot": slot, "i": i}
+        a = rng.randrange(ctx["ngattr"])
+        return pre + "ga%d" % a, {"k": "gattr", "slot": slot, "a": a}
+    if r < 0.8:
+        op = rng.choice(["+", "-", "*", "+", "-", "/", "min", "max"])
+        ta, ia = gen_int_expr(rng, ctx, depth - 1)
+        tb, ib = gen_int_expr(rng, ctx, depth - 1)
+        if op == "/" and ib.get("k") == "lit" and ib["v"] == 0:
+            tb, ib = "3", {"k": "lit", "v": 3}
+        if op in ("min", "max"):
+            return "%s(%s, %s)" % (op, ta, tb), {"k": "bin", "op": op, "a": ia, "b": ib}
+        return "(%s %s %s)" % (ta, op, tb), {"k": "bin", "op": op, "a": ia, "b": ib}
+    if r < 0.88:
+        t, i = gen_int_expr(rng, ctx, depth - 1)
+        return "(-%s)" % t, {"k": "un", "op": "-", "e": i}
+    tc, ic = gen_bool_expr(rng, ctx, depth - 1)
+    ta, ia = gen_int_expr(rng, ctx, depth - 1)
+    tb, ib = gen_int_expr(rng, ctx, depth - 1)
+    return "(%s ? %s : %s)" % (tc, ta, tb), {"k": "cond", "c": ic, "a": ia, "b": ib}
+
+
+def gen_bool_expr(rng, ctx, depth):
+    r = rng.random()
+    if depth <= 0 or r < 0.6:
+        op = rng.choice(["==", "!=", "<", ">", "<=", ">="])
+        ta, ia = gen_int_expr(rng, ctx, max(0, depth - 1))
+        tb, ib = gen_int_expr(rng, ctx, max(0, depth - 1))
+        return "(%s %s %s)" % (ta, op, tb), {"k": "bin", "op": op, "a": ia, "b": ib}
+    if r < 0.9:
+        op = rng.choice(["&&", "||"])
+        ta, ia = gen_bool_expr(rng, ctx, depth - 1)
+        tb, ib = gen_bool_expr(rng, ctx, depth - 1)
+        return "(%s %s %s)" % (ta, op, tb), {"k": "bin", "op": op, "a": ia, "b": ib}
+    t, i = gen_bool_expr(rng, ctx, depth - 1)
+    return "(!%s)" % t, {"k": "un", "op": "!", "e": i}
+
+
+def gen_expr_program(rng, single=False):
+    """Family 'expr' (C01): substitution rules whose modified items set user attributes to expressions over constants of all
+    sizes, user attributes and glyph attributes of the own and of other slots (@n), arithmetic / comparison / logic /
+    conditional operators, and whose items carry constraints; rules of one pass have different leading-context lengths
+    (ANY padding), insertions and deletions shift the input indices. single=True: one pass with one rule (engine run)."""
+    prog = Prog()
+    prog.nglyphs = rng.choice([16, 24, 32])
+    prog.font, _g, prog.cmap = ttf.simple_font(prog.nglyphs)
+    gen_classes(rng, prog, rng.randint(3, 6), 3, prog.nglyphs, maxsize=5)
+    names = prog.class_order
+    ngattr = rng.randint(1, 3)
+    nuser = 4
+    gvals = {}
+    stm = []
+    for g in range(3, prog.nglyphs):
+        vals = [rng.choice([0, 1, 2, 7, 100, 255, 300, -4]) for _ in range(ngattr)]
+        gvals[g] = vals
+    # one statement per distinct value vector keeps the glyph table short
+    by = {}
+    for g, v in gvals.items():
+        by.setdefault(tuple(v), []).append(g)
+    for vi, (v, gl) in enumerate(sorted(by.items())):
+        stm.append("gv%d = %s {%s};" % (vi, glyph_list_text(gl), "; ".join("ga%d = %d" % (a, x) for a, x in enumerate(v))))
+    stm.append("gvMark = glyphid(2) {%s};" % "; ".join("ga%d = %d" % (a, 1000 + a) for a in range(ngattr)))
+    prog.glyph_stmts = stm
+    prog.gattr = {"marker": 2, "markerBase": 1000, "numAttrs": ngattr, "spaceGlyphs": [], "assigns": []}
+    prog.gattr_values = gvals
+    passes = []
+    for _p in range(1 if single else rng.randint(1, 2)):
+        rules = []
+        for _r in range(1 if single else rng.randint(2, 4)):
+            npre = rng.choice([0, 0, 1, 2, 3])
+            nmod = rng.choice([1, 1, 2, 3])
+            npost = rng.choice([0, 0, 1, 2])
+            items = [Item(cls=rng.choice(names)) for _ in range(npre)]
+            for k in range(nmod):
+                x = rng.random()
+                if x < 0.15 and k > 0 and not single:
+                    single_cls = [n for n in names if len(prog.classes[n]) == 1]
+                    if single_cls:
+                        items.append(Item(cls=None, mod=True, out=("cls", rng.choice(single_cls), None)))
+                        continue
+                cls = rng.choice(names)
+                if x < 0.27 and nmod > 1 and k < nmod - 1 and not single:
+                    items.append(Item(cls=cls, mod=True, out=("del",)))
+                else:
+                    items.append(Item(cls=cls, mod=True, out=None))
+            items += [Item(cls=rng.choice(names)) for _ in range(npost)]
+            if not any(it.mod and it.cls is not None and it.out is None for it in items):
+                items.append(Item(cls=rng.choice(names), mod=True, out=None))
+            inputs = [j + 1 for j, it in enumerate(items) if it.cls is not None]
+            for j, it in enumerate(items):
+                if it.cls is None:
+                    near = [q for q in inputs if q != j + 1]
+                    it.assoc = [min(near, key=lambda q: abs(q - (j + 1)))]
+                if it.mod and (it.out is None or it.out[0] == "cls"):
+                    ctx = {"refs": [q for q in inputs if q != j + 1], "own": it.cls is not None, "nuser": nuser, "ngattr": ngattr}
+                    if single:
+                        # engine run: read only slots that this rule leaves untouched until then (later items) or constants
+                        ctx["refs"] = [q for q in inputs if q > j + 1 and items[q - 1].out is None and not items[q - 1].mod]
+                    used = set()
+                    for _a in range(rng.choice([0, 1, 1, 2, 3])):
+                        ui = rng.randrange(nuser)
+                        if ui in used:
+                            continue
+                        used.add(ui)
+                        t, ir_ = gen_int_expr(rng, ctx, rng.choice([0, 1, 2, 3]))
+                        it.attrs.append(("user%d" % (ui + 1), "=" if rng.random() < 0.8 or single else rng.choice(["+=", "-="]), t, ir_))
+                if it.cls is not None and rng.random() < (0.0 if single else 0.3):
+                    ctx = {"refs": [q for q in inputs if q != j + 1], "own": True, "nuser": nuser, "ngattr": ngattr}
+                    it.constraint = gen_bool_expr(rng, ctx, rng.choice([0, 1, 2]))
+            rules.append(Rule(items))
+        passes.append(rules)
+    if single:
+        # engine run: every item of the rule gets its own one-glyph class, and a first pass gives every such glyph known
+        # user attribute values, so that the rule matches exactly once and reads non-trivial values
+        rule = passes[0][0]
+        prog.classes, prog.class_defs, prog.class_order = {}, {}, []
+        setup = []
+        prog.single_user = {}
+        for k, it in enumerate(rule.items):
+            nm = "s%d" % k
+            g = 3 + k
+            prog.classes[nm] = [g]
+            prog.class_defs[nm] = "glyphid(%d)" % g
+            prog.class_order.append(nm)
+            it.cls = nm
+            vals = [rng.choice([0, 1, 2, 3, 9, 100, 127, 128, 300, 40000, 70000, -1, -5, -300, -40000]) for _ in range(nuser)]
+            prog.single_user[g] = vals
+            attrs = [("user%d" % (u + 1), "=", (str(v) if v >= 0 else "(%d)" % v), {"k": "lit", "v": v}) for u, v in enumerate(vals)]
+            setup.append(Rule([Item(cls=nm, mod=True, out=None, attrs=attrs)]))
+        passes = [setup, [rule]]
+    prog.tables.append(("sub", passes))
+    return prog
